@@ -315,6 +315,9 @@ func runJob(ld *sym.Loaded, j *job, tier, scratch string, verbose bool) (res *sy
 	if _, ok := j.spec.Opts["symlen"]; ok {
 		c.SymbolicLen = true
 	}
+	if j.spec.Opts["clock"] == "fixed" {
+		c.FixedClock = true
+	}
 	if j.spec.Opts["panics"] == "assume" {
 		c.PanicsAssume = true
 	}
